@@ -223,6 +223,43 @@ def gen_annotations(rng, rich=1.0, unsafe_names=False):
     return lines, classes
 
 
+def gen_dirty_tail(rng):
+    """Modifying calls to run last, immediately before the export (no query in between): some distances / memattrs / cpukinds
+    first so that there is something to invalidate, then 1-3 of the calls that leave internal caches to be refreshed."""
+    K = lambda: rng.randint(0, 400)
+    lines = []
+    for _ in range(rng.randint(1, 2)):
+        kind = rng.choice([1, 2]) | rng.choice([4, 8, 32])
+        if rng.random() < 0.4:
+            t1, t2 = rng.sample(NORMAL_TYPES, 2)
+            lines.append("ann disthet %d %d %d %d %s" % (t1, t2, kind, rng.randint(0, 50), hx(b"DH")))
+        else:
+            lines.append("ann dist %d %d %d %s" % (rng.choice([4, 4, 14, 1, 6, 3]), kind, rng.randint(0, 50), hx(b"DD")))
+    if rng.random() < 0.5:
+        lines.append("ann mattr %d %d %s %d %d" % (rng.randint(0, 9), K(), rng.choice("cco"), K(), rng.choice([1, 100])))
+    if rng.random() < 0.4:
+        lines.append("ann cpukind %d %d 0" % (K(), rng.choice([-1, 0, 5])))
+    for _ in range(rng.randint(1, 3)):
+        r = rng.random()
+        if r < 0.4:
+            lines.append("ann restrict %d %d" % (K(), rng.choice([0, 0, 1, 2, 4])))
+        elif r < 0.6:
+            lines.append("ann restrictnode %d %d" % (K(), rng.choice([0, 16, 0])))
+        elif r < 0.7:
+            lines.append("ann dist %d 5 %d %s" % (rng.choice([4, 14, 1]), rng.randint(0, 50), hx(b"Late")))
+        elif r < 0.75:
+            lines.append("ann distremove")
+        elif r < 0.82:
+            lines.append("ann group %d %d 1 0 0" % (K(), K()))
+        elif r < 0.88:
+            lines.append("ann misc %d %s" % (K(), hx(b"late misc")))
+        elif r < 0.94:
+            lines.append("ann info %d %s %s" % (K(), hx(b"late"), hx(b"v")))
+        else:
+            lines.append("ann subtype %d %s" % (K(), hx(b"late")))
+    return lines
+
+
 def xml_sources(rng, quick):
     xs = S.xml_corpus()
     return xs
